@@ -398,3 +398,11 @@ impl Metainfo {
         (&self.announce, &self.name, self.piece_length, &self.files)
     }
 }
+
+#[cfg(rdest_verif)]
+impl Metainfo {
+    /// Replace the info-hash (lets the harness drive the tracker client with arbitrary hashes).
+    pub fn verif_set_info_hash(&mut self, hash: [u8; HASH_SIZE]) {
+        self.info_hash = hash;
+    }
+}
